@@ -10,6 +10,10 @@ NOTE = ("Trusted base: go/types (type checking and constant evaluation), golang.
         "The check decides the named structural clauses only; the value-level remainder listed in the evidence under not_covered is not claimed.")
 
 CLAIMED = {
+ "C02": dict(level="other",
+   technique="static analysis over the decode-reachable call graph: forbidden-construct rules (panic sites, unchecked type assertions), reader typestate (validate-before-use by dominance), length-guard dataflow for every index/slice with a recognised per-type length table, input-alias taint, per-loop progress",
+   text="Enumerates every construct that could make a decoder panic, over-read, spin or write into its input, in the ~200 repository functions reachable while untrusted bytes are decoded, and discharges each by a local structural argument: explicit panics only where the guard depends on the destination type; no unchecked type assertion on an input-chosen value; every binary reader validated before use and confined to its parent's declared extent; every index, slice and fixed-width read dominated by a sufficient length fact (guard, validated typestate, or the length table recognised in validate()); no store/append through a slice aliasing the input; every loop consumes input or is a bounded range and every typed read advances; no reader error dropped. This found five crash/mutation defects, now repaired and guarded. Standard-library internals, memory exhaustion and a full termination proof are outside.",
+   ref="§4 C02"),
  "C01": dict(level="other",
    technique="static analysis: codec plan model of the reflective coder over all reachable struct types + SSA path-by-path trace comparison of every hand-written decoder with the encoder of the same struct",
    text="Decides encoder/decoder agreement, a necessary condition of the round trip, for every struct type reachable from the root messages (111 reflectively encoded, 103 reflectively decoded, 12 hand-written decoders): each field resolves to a tag and a supported kind in both directions, no optional or repeated field can steal a same-tag successor, every uint32 field type is a registered enumeration, and on every acyclic success path each hand-written decoder reads the encoder's elements in order into the field they were written from, tolerating exactly the omissions the encoder can make and dropping nothing. Found and now guards two decoder defects (Import Key Wrap Type, response Message Extension). Value-level equality (two's complement, padding, byte identity) is not decided.",
